@@ -20,11 +20,11 @@ REPO = "/repo"
 PY = "/venv/bin/python"
 
 
-def load_mutants():
+def load_mutants(equivalent=False):
     spec = importlib.util.spec_from_file_location("mutants", os.path.join(VERIF, "selftest", "mutants.py"))
     m = importlib.util.module_from_spec(spec)
     spec.loader.exec_module(m)
-    return m.MUTANTS
+    return m.EQUIVALENT if equivalent else m.MUTANTS
 
 
 def load_seeded():
@@ -66,7 +66,10 @@ def apply(mut, d):
 
 def run_tests(d):
     env = dict(os.environ, PYTHONPATH=d, PYTHONDONTWRITEBYTECODE="1")
-    r = subprocess.run([PY, "-m", "pytest", "-q", "-x", "-p", "no:cacheprovider", "tests"], cwd=d, env=env, capture_output=True, text=True, timeout=900)
+    try:
+        r = subprocess.run([PY, "-m", "pytest", "-q", "-x", "-p", "no:cacheprovider", "--timeout=60", "tests"], cwd=d, env=env, capture_output=True, text=True, timeout=600)
+    except subprocess.TimeoutExpired:
+        return False, "test run timed out"
     return r.returncode == 0, r.stdout[-300:]
 
 
@@ -75,13 +78,21 @@ def run_check(pid, d, tier, seed):
     env = dict(os.environ, VERIF_REPO=d, VERIF_EVIDENCE_DIR=evdir, VERIF_SEED=str(seed))
     t0 = time.time()
     sys.stdout.flush()
-    r = subprocess.run([os.path.join(VERIF, "check"), pid, "--tier", tier], cwd=VERIF, env=env, capture_output=True, text=True, timeout=1500)
+    try:
+        r = subprocess.run([os.path.join(VERIF, "check"), pid, "--tier", tier], cwd=VERIF, env=env, capture_output=True, text=True, timeout=1500)
+    except subprocess.TimeoutExpired:
+        subprocess.run("pkill -f vmon.worker", shell=True)
+        return 2, time.time() - t0, "check timed out (watchdog): inconclusive"
     first = ""
     for line in r.stdout.splitlines():
         if line.startswith(("  key=", "INCONCLUSIVE")):
             first = line.strip()[:260]
             break
-    return r.returncode, time.time() - t0, first
+    rc = r.returncode
+    if rc == 1 and "VIOLATION property=%s " % pid not in r.stdout:
+        rc = 3  # the check itself crashed: not a detection
+        first = (r.stderr or r.stdout)[-260:].replace("\n", " | ")
+    return rc, time.time() - t0, first
 
 
 def main():
@@ -90,9 +101,10 @@ def main():
     ap.add_argument("--tier", default="quick")
     ap.add_argument("--seed", type=int, default=0)
     ap.add_argument("--seeded", action="store_true")
+    ap.add_argument("--equivalent", action="store_true", help="behaviour-preserving edits: every check must stay silent")
     ap.add_argument("--out", default=os.path.join(VERIF, "selftest", "results.json"))
     a = ap.parse_args()
-    muts = load_seeded() if a.seeded else load_mutants()
+    muts = load_seeded() if a.seeded else load_mutants(a.equivalent)
     if a.only:
         muts = [m for m in muts if a.only in m["name"]]
     results = []
@@ -111,7 +123,12 @@ def main():
                 row["checks"][pid] = {"exit": rc, "wall_s": round(dt, 1), "first": first}
             caught = [p for p, c in row["checks"].items() if c["exit"] == 1]
             incon = [p for p, c in row["checks"].items() if c["exit"] == 2]
+            crashed = [p for p, c in row["checks"].items() if c["exit"] == 3]
+            if crashed:
+                print("      CHECK CRASHED: %s" % crashed)
             row["status"] = "caught" if caught else ("inconclusive" if incon else "MISSED")
+            if a.equivalent:
+                row["status"] = "silent" if all(c["exit"] == 0 for c in row["checks"].values()) else "FALSE-ALARM"
             results.append(row)
             print("%-46s tests=%s %s  %s" % (mut["name"], "pass" if tests_ok else "FAIL", row["status"],
                                             " ".join("%s:%d(%.0fs)" % (p, c["exit"], c["wall_s"]) for p, c in row["checks"].items())))
